@@ -507,15 +507,25 @@ GenProps ==
                LET ks == Knots(U) IN \A i \in 1..(Len(ks) - 2) : Sub(ks[i + 1], ks[i]) = Sub(ks[i + 2], ks[i + 1]))
         /\ (a.kind = "weight" => LET ks == Knots(U) IN \A i \in 1..Len(a.w) : Sub(ks[i + 1], ks[i]) = a.w[i])]_vars
 
+(* values of the model's own result on the sample set the clauses need *)
+SpecObsOn(ks, deg, d) ==
+  LET S == SeqOfSet(SamplePts(ks, deg)) IN
+  [i \in 1..Len(S) |-> <<S[i], IF Valid(d.U, S[i]) THEN Eval(d, S[i]) ELSE NaR>>]
+SpecObs3(c, b, d) == SpecObsOn(SeqOfSet(KnotSet(c.U) \cup KnotSet(b.U) \cup KnotSet(d.U)),
+                               Deg(c.U) + Deg(b.U) + Deg(d.U), d)
+SpecObs(c, d) == SpecObsOn(CommonBreaks(c.U, d.U), Deg(c.U) + Deg(d.U), d)
+
 (* C05 / C06: the model's own removal / reduction transitions satisfy the relational clauses *)
 RemoveExactOrRefused ==
   [][(act'.name = "CvKnotRemove" /\ ret'.class \in {"ok", "Error"} /\ act'.tol[1] # "none") =>
         KnotRemoveClauses(AsCurve(heap[act'.obj]), act'.nodes, act'.tol,
-                          IF ret'.class = "ok" THEN "ok" ELSE "ValueError", AsCurve(heap'[act'.obj])) = {}]_vars
+                          IF ret'.class = "ok" THEN "ok" ELSE "ValueError", AsCurve(heap'[act'.obj]),
+                          SpecObs(AsCurve(heap[act'.obj]), AsCurve(heap'[act'.obj]))) = {}]_vars
 ReduceExactOrRefused ==
   [][(act'.name = "CvDegreeDecrease" /\ ret'.class \in {"ok", "Error"} /\ act'.tol[1] # "none") =>
         DegreeDecreaseClauses(AsCurve(heap[act'.obj]), act'.times, act'.tol,
-                          IF ret'.class = "ok" THEN "ok" ELSE "ValueError", AsCurve(heap'[act'.obj])) = {}]_vars
+                          IF ret'.class = "ok" THEN "ok" ELSE "ValueError", AsCurve(heap'[act'.obj]),
+                          SpecObs(AsCurve(heap[act'.obj]), AsCurve(heap'[act'.obj]))) = {}]_vars
 (* C14: clean keeps the function, is idempotent, and ends in the minimal form *)
 CleanProps ==
   [][act'.name = "CvClean" =>
@@ -525,7 +535,8 @@ CleanProps ==
 (* C07: the join restricts to both operands *)
 JoinRestores ==
   [][(act'.name = "CvJoin" /\ ret'.class = "ok" /\ ret'.rel = "exact") =>
-        JoinClauses(AsCurve(heap[act'.obj]), act'.other, "ok", ret'.val) = {}]_vars
+        JoinClauses(AsCurve(heap[act'.obj]), act'.other, "ok", ret'.val,
+                    SpecObs3(AsCurve(heap[act'.obj]), act'.other, ret'.val)) = {}]_vars
 
 -----------------------------------------------------------------------------
 (* transition log: one JSON object per explored transition                  *)
